@@ -66,6 +66,10 @@ def make_read(sim, rd, idx, rng_seed):
     if not any(o in "M=X" for o, _ in cig):
         cig = [("M", 1)]
         seq = [G[pos]]
+    if rd.get("nn"):
+        # no-calls: the base N anywhere in the read (its own generator, so that older replay files keep their reads)
+        r2 = random.Random(rng_seed * 104729 + idx)
+        seq = ["N" if r2.random() < rd["nn"] / 100.0 else b for b in seq]
     s = "".join(seq)
     q = [rng.choice([0, 1, 2, 5, 9, 10, 15, 19, 20, 28, 29, 33, 38, 39, 41]) for _ in s]
     return {"name": f"f{rd['name']}", "pos": pos, "cig": cig, "seq": s, "qual": q, "mq": rd["mq"], "flag": rd["flag"]}
@@ -203,6 +207,8 @@ def run_case(case):
             labels.append("flag:" + nm_)
     if any(any(o == "H" for o, _ in r["cig"]) for r in reads):
         labels.append("hardclip")
+    if any("N" in r["seq"] for r in elig):
+        labels.append("no-call-base")
 
     viol = []
     bam = write_reads(os.path.join(d, "r.bam"), sim, reads, "bam")
@@ -332,7 +338,7 @@ def read_desc(draw):
     if draw(st.booleans()):
         flag |= 0x1 | draw(st.sampled_from([0x40, 0x80]))
     return {"start": draw(st.integers(0, 3000)), "cig": cig, "flag": flag, "mq": draw(st.sampled_from([0, 1, 5, 9, 10, 11, 20, 29, 30, 39, 40, 60])),
-            "mm": draw(st.sampled_from([0, 0, 2, 10])), "name": draw(st.integers(0, 12))}
+            "mm": draw(st.sampled_from([0, 0, 2, 10])), "name": draw(st.integers(0, 12)), "nn": draw(st.sampled_from([0, 0, 0, 3, 25]))}
 
 
 def strategy(tier):
